@@ -72,6 +72,15 @@ class EvaluationMapper(EvaluationMapperBase):
         elif expr.name in self.functions:
             return self.functions[expr.name]
 
+    def map_sum(self, expr):
+        # Add the terms one after the other, as the generated code does. (The
+        # built-in sum() used by the base class compensates for rounding
+        # errors from Python 3.12 on and rounds differently.)
+        result = 0
+        for child in expr.children:
+            result = result + self.rec(child)
+        return result
+
     def map_generic_call(self, function_name, parameters, kw_parameters):
         if function_name in self.functions:
             function = self.functions[function_name]
